@@ -93,6 +93,9 @@ def leaf_variable(rep, f, slot, rule):
 
 
 def check(ix, rep):
+    from sa.rules import round11 as _r11
+    rep.floor('integer literal conversions with a base', _r11.check_literal_bases(ix, rep), 2)
+    rep.floor('functions between the data set and the monitor checked for re-ordering', _r11.check_sample_order(ix, rep), 4)
     mons = {m.kind: m for m in M.standard_monitors(ix)}
     mon = mons.get('discrete-offline')
     if mon is None:
